@@ -130,6 +130,49 @@ DAGTXT = """steps:
 """
 
 
+def agent_level(chk, prop, ncases, only=None):
+    """the REAL agent (Agent.Run -> newScheduler -> Schedule) on generated DAGs with scripted executors: the clauses of
+    C04 (handlers = the plan of the outcome) and C15 (maxActiveRuns) judged at the agent level, where the DAG's settings
+    reach the scheduler through Agent.newScheduler"""
+    binp, out = common.build_harness("agentrun")
+    if not binp:
+        chk.oblige("harness-build:agentrun", False, out[-3000:]); return
+    rng = chk.rng
+    cases = []
+    for k in range(ncases):
+        c = gen_case(rng, 300000 + k, 5)
+        c["id"] = "g%d" % k
+        if prop == "C15":
+            c["maxActive"] = rng.choice([1, 1, 2])
+        cases.append(c)
+    if only is not None:
+        cases = [only]          # replay (the recorded op order is in the case)
+    results = run_harness(binp, cases)
+    n = 0
+    for c in cases:
+        r = results.get(c["id"])
+        if not r or r.get("panic") or r.get("hang") or not r.get("final"):
+            continue
+        n += 1; chk.evaluations += 1
+        if prop == "C15" and c["maxActive"] > 0:
+            for p in r.get("points") or []:
+                steps = [x for x in (p.get("fl") or []) if x < 1000]
+                if len(steps) > c["maxActive"]:
+                    chk.violation("C15:agent-run:limit-exceeded", "maxActiveRuns %d in the DAG, %d step commands executing at once under the real agent: %r" % (
+                        c["maxActive"], len(steps), steps), {"agent_case": dict(c, ops=r.get("ops"))})
+                    break
+        if prop == "C04":
+            ran = [int(o.split()[1]) - 1000 for o in (r.get("ops") or []) if o.startswith("rel ") and int(o.split()[1]) >= 1000]
+            ov = (r["final"].get("live") or {}).get("ov")
+            idx = {"finished": 0, "failed": 1, "canceled": 2}.get(ov)
+            if idx is not None:
+                plan = [h for h in (idx, 3) if c["handlers"][h] != 0]
+                if ran != plan:
+                    chk.violation("C04:agent-run:wrong-handlers-run", "run ended %s under the real agent with handlers configured %r: handlers run %r, expected %r" % (
+                        ov, c["handlers"], ran, plan), {"agent_case": dict(c, ops=r.get("ops"))})
+    chk.stats["agent_level_runs"] = n
+
+
 def real_kills(chk, nkills):
     hbin = os.path.join(common.BIN, "agentrun")
     binp, out = common.build_real_binary()
